@@ -518,8 +518,30 @@ def explore(ctx, recipe, rng):
             pass
 
 
+def generated_in_default(ctx, rng, n):
+    """Directed: a configuration-typed parameter left at its default, where the default's class has a generated parameter
+    that is neither a path nor Meta.  Generated values are outside the signature: the identifier must not move when the
+    configuration is sealed (which is when the value is generated)."""
+    from xvmodels import zoo
+    from experimaestro.xpmutils import DirectoryContext
+
+    for _ in range(n):
+        x = rng.randint(0, 99)
+        o = zoo.OwnerGI(x=x)
+        before = o.__xpm__.identifier.all.hex()
+        o.__xpm__.seal(DirectoryContext(Path("/xvseal")))
+        o.__xpm__._raw_identifier = None
+        o.__xpm__._full_identifier = None
+        after = o.__xpm__.identifier.all.hex()
+        ctx.count("generated_in_default_cases")
+        if before != after:
+            ctx.violation("cfg-default-unequal-after-generation", f"OwnerGI(x={x}): identifier {before[:12]} before sealing, {after[:12]} once sealed: the sub-configuration left at its default no longer equals the default after its generated parameter was filled, and is hashed", {"class": "OwnerGI", "x": x})
+        ctx.case({"gid": x}, nontrivial=True, sample={"x": x, "before": before[:12], "after": after[:12]}, max_samples=1)
+
+
 def worker(ctx):
     xpctx.quiet()
+    generated_in_default(ctx, ctx.rng, 3)
     n = max(1, N[ctx.tier] // ctx.nshards)
     with xpctx.stderr_to_devnull(), xpctx.dry_experiment(ctx.scratch / "ws"):
         metaheavy = recipes.Profile(p_meta=0.5, root_classes=["Node", "Node", "Rec", "Holder", "TaskT", "TaskO", "Gen"])
